@@ -39,6 +39,14 @@ def materialise(root: Path, files: dict):
         else:
             p.write_bytes(base64.b64decode(spec))
 
+def stat_tree(root: Path):
+    out = {}
+    for dp, dn, fn in os.walk(root, followlinks=False):
+        for f in fn + dn:
+            p = os.path.join(dp, f); st = os.lstat(p)
+            out[os.path.relpath(p, root)] = [st.st_mode, st.st_mtime_ns, st.st_size]
+    return out
+
 def read_tree(root: Path):
     from vf.monitors import snapshot
     return snapshot(root)
@@ -54,7 +62,15 @@ def run_job(job, d: Path, run, M):
     outp = d / "out.codetf"
     def sub(a):
         return a.replace("{proj}", str(proj)).replace("{out}", str(outp)).replace("{res}", str(resdir)).replace("{dir}", str(d))
-    argv = [sub(a) for a in job["argv"]]
+    # how the user spells the target directory (only the positional "{proj}" argument is respelled; patterns keep the absolute path)
+    spelling = job.get("target", "abs"); cwd0 = os.getcwd(); target = str(proj)
+    if spelling == "rel": os.chdir(d); target = "proj"
+    elif spelling == "dot": os.chdir(proj); target = "."
+    elif spelling == "dotdot": os.chdir(proj); target = "../proj"
+    elif spelling == "symlink": os.symlink(proj, d / "link"); target = str(d / "link")
+    elif spelling == "trailing-slash": target = str(proj) + "/"
+    job["_target"] = target
+    argv = [target if a == "{proj}" else sub(a) for a in job["argv"]]
     saved_env = {}
     if job.get("stub_semgrep"):
         bind = d / "stubbin"; bind.mkdir()
@@ -67,6 +83,7 @@ def run_job(job, d: Path, run, M):
     try:
         return _run_repeats(job, d, run, M, proj, outp, argv)
     finally:
+        os.chdir(cwd0)
         for k, v in saved_env.items():
             if v is None: os.environ.pop(k, None)
             else: os.environ[k] = v
@@ -76,11 +93,12 @@ def _run_repeats(job, d, run, M, proj, outp, argv):
     steps = job.get("steps")
     def sub2(a): return a.replace("{proj}", str(proj)).replace("{out}", str(outp)).replace("{res}", str(d / "res")).replace("{dir}", str(d))
     for rep_i in range(len(steps) if steps else job.get("repeat", 1)):
-        if steps: argv = [sub2(a) for a in steps[rep_i]]
+        if steps: argv = [job.get("_target", str(proj)) if a == "{proj}" else sub2(a) for a in steps[rep_i]]
         tr = M.Trace()
         buf = io.StringIO()
         rc = None; exc = None
         before_tree = read_tree(proj) if job.get("want_before") else None
+        before_stat = stat_tree(proj) if job.get("want_stat") else None
         import contextlib as _cl
         from vf import plugins as _pl
         with (_pl.Registered(job["plugins"]) if job.get("plugins") else _cl.nullcontext()), M.Monitors(job.get("monitors") or {}, tr, proj):
@@ -103,6 +121,7 @@ def _run_repeats(job, d, run, M, proj, outp, argv):
             outp.unlink()
         o = {"rc": rc, "exc": exc, "report": report, "tree": read_tree(proj), "log": buf.getvalue()[-20000:] if not job.get("full_log") else buf.getvalue(),
              "trace": tr.events if job.get("want_trace", True) else None, "counters": tr.counters, "before_tree": before_tree, "proj": str(proj)}
+        if job.get("want_stat"): o["before_stat"] = before_stat; o["stat"] = stat_tree(proj)
         if job.get("outside"):
             o["outside_tree"] = {k: v for k, v in read_tree(d).items() if not k.startswith(("proj/", "res/"))}
         outcomes.append(o)
